@@ -15,7 +15,7 @@ import time
 import traceback
 
 VERIF = os.path.dirname(os.path.dirname(os.path.abspath(__file__)))
-EVID = os.path.join(VERIF, 'evidence')
+EVID = os.environ.get('VERIF_EVIDENCE_DIR') or os.path.join(VERIF, 'evidence')  # (redirected only by tools/seed_eval.py)
 REPLAYS = os.path.join(EVID, 'replays')
 
 
